@@ -258,6 +258,13 @@ func (it *Interp) makeArg(name string, t types.Type, as ArgSpec, byName map[stri
 		} else if strings.HasSuffix(ts, "Named") {
 			f.Named = Yes
 		}
+		// elem-comparable: the registering Generate has checked types.Comparable(elem)
+		if as["elem-comparable"] == "true" && (k == KSlice || k == KArray) {
+			if f.Elem == nil {
+				f.Elem = it.newType("Elem(" + name + ")")
+			}
+			it.run.preds["types.IsComparable("+f.Elem.Desc+")"] = Yes
+		}
 		// nresults=N result0kind=K: shapes the registering Add has checked
 		if nr, ok := as["nresults"]; ok && k == KSignature {
 			n := 0
